@@ -301,17 +301,17 @@ def _rl(u, what):
         rowlocal(u, "reward", mk_in, lambda u, ins: u.run(F, "MTVRPEnv._get_reward", ins["td"], ins["actions"], selfobj=env), requires=req)
 
 
-@unit("mtvrp.rowlocal.step", file=F, func="MTVRPEnv._step", props=("C04",))
+@unit("mtvrp.rowlocal.step", file=F, func="MTVRPEnv._step", props=("C04", "C14"))
 def _(u):
     _rl(u, "step")
 
 
-@unit("mtvrp.rowlocal.mask", file=F, func="MTVRPEnv.get_action_mask", props=("C04",))
+@unit("mtvrp.rowlocal.mask", file=F, func="MTVRPEnv.get_action_mask", props=("C04", "C14"))
 def _(u):
     _rl(u, "mask")
 
 
-@unit("mtvrp.rowlocal.reward", file=F, func="MTVRPEnv._get_reward", props=("C04",))
+@unit("mtvrp.rowlocal.reward", file=F, func="MTVRPEnv._get_reward", props=("C04", "C14"))
 def _(u):
     _rl(u, "reward")
 
